@@ -35,10 +35,13 @@ func init() {
 			p.cfg.PermuteMaps = a[0].(*Term).IsTrue()
 			return nil
 		},
-		"vfExecLog": vfExecLog,
-		"vfExecSet": vfExecSet,
-		"vfThreads": vfThreads,
-		"vfExecErr": vfExecErr,
+		"vfExecLog":    vfExecLog,
+		"vfExecSet":    vfExecSet,
+		"vfFileExists": vfFileExists,
+		"vfLoadResult": vfLoadResult,
+		"vfLoadDir":    vfLoadDir,
+		"vfThreads":    vfThreads,
+		"vfExecErr":    vfExecErr,
 	}
 }
 
